@@ -32,6 +32,14 @@ N2_E == << RouteOf(<<1, 2, 3, 4, 8>>, TRUE), RouteOf(<<1, 5, 6, 7, 8>>, TRUE) >>
 N2_W == << RouteOf(<<9, 10, 11, 12, 16>>, TRUE), RouteOf(<<9, 13, 14, 15, 16>>, TRUE) >>
 N2_Routes(nt) == [t \in 1..nt |-> IF t % 2 = 1 THEN N2_E ELSE N2_W]
 
+\* a train longer than its last link: no final Clear node
+RouteLong(ls) == LET r == RouteOf(ls, TRUE) IN SubSeq(r, 1, Len(r) - 1)
+\* ---- NL: single track, train 1 over-long (leaves the network on an Arrive node), train 2 follows it, train 3 opposes
+NL_Routes(nt) == [t \in 1..nt |-> IF t = 1 THEN << RouteLong(<<1, 2, 3>>) >>
+                                   ELSE IF t = 3 THEN << RouteOf(<<4, 5, 6>>, TRUE) >> ELSE << RouteOf(<<1, 2, 3>>, TRUE) >>]
+R_nl_3 == NL_Routes(3)
+D_nl_3 == Dep(3)
+
 \* ---- N0: plain single track of three links, followers and opposing trains
 N0_Links == 1..6
 N0_Flip == [l \in N0_Links |-> 7 - l]
